@@ -272,9 +272,13 @@ POSITIONS = {
     "rgb_pin": "rgb2 = RGBLed({e}, 5, 6)", "motor_pin": "m2 = DCMotor({e}, 7, 11)", "motor_speed": "m3 = DCMotor(4, 7, 11)\nm3.set_speed({e})",
     "sweep": "bz.sweep({e}, 800, duration_ms=100, steps=3)", "melody_tempo": "bz.melody('success', tempo={e})",
     "lcd_write": "lcd.write({e}, 0, 'x')", "lcd_progress": "lcd.progress(0, {e}, max_value=10)", "serial_baud": "mon2 = SerialMonitor({e})",
+    "splat_kw_assign": "sv = digital_read(2, **{e})", "splat_kw_cond": "if analog_read(**{e}):\n    sleep(1)",
+    "splat_kw_while": "while digital_read(**{e}):\n    sleep(1)", "splat_kw_stmt": "digital_write(13, **{e})",
+    "splat_args_core": "analog_write(*{e})", "splat_pin_mode": "pm = pin_mode(**{e})", "splat_device_args": "led.blink(*{e})",
+    "splat_device_kw": "led.blink(10, **{e})", "splat_ctor": "led3 = Led(**{e})", "splat_sleep": "sleep(*{e})",
     "aug": "p += {e}", "return": "def r():\n    return {e}\nsleep(r())", "list_append": "zs.append({e})",
 }
-SITE_HDR = ('from Reduino.Actuators import Led, RGBLed, Servo, Buzzer\nfrom Reduino.Utils import sleep\nfrom Reduino.Sensors import Ultrasonic, Button, Potentiometer\nfrom Reduino.Actuators import DCMotor\n'
+SITE_HDR = ('from Reduino.Actuators import Led, RGBLed, Servo, Buzzer\nfrom Reduino.Utils import sleep\nfrom Reduino.Sensors import Ultrasonic, Button, Potentiometer\nfrom Reduino.Actuators import DCMotor\nfrom Reduino.Core import pin_mode, digital_read, digital_write, analog_read, analog_write, OUTPUT, HIGH\n'
             'from Reduino.Displays import LCD\nfrom Reduino.Communication import SerialMonitor\nmon = SerialMonitor(9600, "COM3")\n'
             'led = Led(13)\nrgb = RGBLed(3, 5, 6)\nbz = Buzzer(8)\nlcd = LCD(i2c_addr=0x27)\n'
             # statements that make the transpiler allocate names / counters / environments before the hostile line
